@@ -1,3 +1,6 @@
 import AgProofs.Props.C10
 import AgProofs.Props.C12
 import AgProofs.Props.C03
+import AgProofs.Props.C15
+import AgProofs.Props.C17
+import AgProofs.Props.C01
